@@ -158,6 +158,95 @@ def b_snap_constants(S):
     return out
 
 
+def _kwcall(source, qual, fname, expected_kw):
+    """the unique call `fname(k=v, ...)` inside function `qual` whose keyword arguments are exactly `expected_kw`
+    (values compared as unparsed text); returns its source text (to be used as a constant key)"""
+    fn = find_func(ast.parse(source), qual)
+    calls = [n for n in ast.walk(fn) if isinstance(n, ast.Call) and ast.unparse(n.func) == fname]
+    if len(calls) != 1:
+        raise Untranslatable(f"{qual}: expected one call of {fname}, found {len(calls)}")
+    c = calls[0]
+    got = {k.arg: ast.unparse(k.value) for k in c.keywords}
+    if c.args or got != expected_kw:
+        raise Untranslatable(f"{qual}: call of {fname} passes {got} (positional {len(c.args)}), expected {expected_kw}")
+    return ast.get_source_segment(source, c)
+
+
+GEO_PARAMS = [("{E}", "Type"), ("{A}", "Type")]
+
+
+def b_node_identity(S):
+    """whole `node_identity` and the loop of `node_identities_from_branches`; geometry and the spatial index are parameters"""
+    C = dict(gconsts(S))
+    C.update({
+        "areas.geometry.values": "areas",
+        "endpoint.distance(area.boundary)": "(bdist endpoint area)",
+        "list(endpoints_spatial_index.intersection(endpoint.coords[0]))": "(query endpoint)",
+        "endpoints_geoseries.iloc[candidate_idxs]": "(List.map endpoints_geoseries candidate_idxs)",
+        "candidate.distance(endpoint)": "(dist candidate endpoint)",
+    })
+    T = {"areas.geometry.values": "List A", "endpoint.distance(area.boundary)": "Rat", "candidate.distance(endpoint)": "Rat",
+         "list(endpoints_spatial_index.intersection(endpoint.coords[0]))": "List Nat", "candidate_idxs": "List Nat",
+         "endpoints_geoseries.iloc[candidate_idxs]": "List E", "candidates": "List E", "node_type": "String", "intersecting_node_count": "Nat"}
+    extra = GEO_PARAMS + [("bdist", "E → A → Rat"), ("dist", "E → E → Rat"), ("query", "E → List Nat")]
+    out = translate_function(
+        S[BAN], "node_identity", "node_identity",
+        {"endpoint": "E", "idx": "Nat", "areas": "List A", "endpoints_geoseries": "Nat → E", "snap_threshold": "Rat"}, "String", C, types=T,
+        extra_params=extra, default_num="Nat")
+    # the collection loop
+    call_txt = _kwcall(S[BAN], "node_identities_from_branches", "node_identity",
+                       {"endpoint": "endpoint", "idx": "idx", "areas": "areas", "endpoints_geoseries": "all_endpoints_geoseries",
+                        "endpoints_spatial_index": "endpoints_spatial_index", "snap_threshold": "snap_threshold"})
+    fn = find_func(ast.parse(S[BAN]), "node_identities_from_branches")
+    pre = {ast.unparse(st.targets[0]): ast.unparse(st.value) for st in fn.body if isinstance(st, ast.Assign) and len(st.targets) == 1}
+    ann = {ast.unparse(st.target): ast.unparse(st.value) for st in fn.body if isinstance(st, ast.AnnAssign) and st.value is not None}
+    if ann.get("all_endpoints") != "list(chain(*[list(get_trace_endpoints(branch)) for branch in branches.geometry.values]))":
+        raise Untranslatable("all_endpoints is not the chained list of the branches' end points")
+    if pre.get("all_endpoints_geoseries") != "gpd.GeoSeries(all_endpoints)" or ann.get("endpoints_spatial_index") != "all_endpoints_geoseries.sindex":
+        raise Untranslatable("endpoint series / spatial index are not built from all_endpoints")
+    C2 = dict(gconsts(S))
+    C2.update({"endpoint.wkt": "(key endpoint)", call_txt: "(node_identity bdist dist query endpoint idx areas (fun i => all_endpoints.getD i dflt) snap_threshold)",
+               "dict()": "[]", "list(collected_nodes.values())": "(List.map Prod.snd collected_nodes)"})
+    T2 = {"endpoint.wkt": "K", "collected_nodes": "AList K (E × String)", call_txt: "String", "identity": "String", "values": "List (E × String)",
+          "list(collected_nodes.values())": "List (E × String)", "nodes": "List E", "identities": "List String", "all_endpoints": "List E", "value": "E × String"}
+    out += "\n" + translate_function(
+        S[BAN], "node_identities_from_branches", "node_identities_from_branches",
+        {"all_endpoints": "List E", "areas": "List A", "snap_threshold": "Rat"}, "List E × List String", C2, types=T2,
+        extra_params=GEO_PARAMS + [("{K}", "Type"), ("[BEq K]", ""), ("bdist", "E → A → Rat"), ("dist", "E → E → Rat"), ("query", "E → List Nat"), ("key", "E → K"), ("dflt", "E")],
+        slice_from="collected_nodes", default_num="Nat")
+    return out
+
+
+def b_branch_identities(S):
+    """the loop of `get_branch_identities`; the bounding-box query and the distances are parameters"""
+    src = S[BAN]
+    q_txt = _kwcall(src, "get_branch_identities", "spatial_index_intersection", {"spatial_index": "node_spatial_index", "coordinates": "geom_bounds(branch)"})
+    fn = find_func(ast.parse(src), "get_branch_identities")
+    pre = {ast.unparse(st.targets[0]): ast.unparse(st.value) for st in fn.body if isinstance(st, ast.Assign) and len(st.targets) == 1}
+    if pre.get("node_spatial_index") != "nodes.sindex":
+        raise Untranslatable("node_spatial_index is not nodes.sindex")
+    dist_txt = "node_candidates.distance(MultiPoint(list(get_trace_endpoints(branch)))).values"
+    C = dict(gconsts(S))
+    C.update({
+        "branches.geometry.values": "branches", q_txt: "(bquery branch)",
+        "nodes.iloc[node_candidate_idxs]": "(List.map nodes node_candidate_idxs)",
+        "node_identities[i]": "(node_identities.getD i \"\")",
+        dist_txt: "(List.map (fun n => edist n branch) node_candidates)",
+        "list(compress(node_candidate_types, inter))": "(pyCompress node_candidate_types inter)",
+        "determine_branch_identity": "determine_branch_identity",
+    })
+    T = {"branches.geometry.values": "List B", q_txt: "List Nat", "node_candidate_idxs": "List Nat", "nodes.iloc[node_candidate_idxs]": "List N",
+         "node_candidates": "List N", "node_identities[i]": "String", "node_candidate_types": "List String", dist_txt: "List Rat", "dist": "Rat",
+         "inter": "List Bool", "list(compress(node_candidate_types, inter))": "List String", "nodes_that_intersect_types": "List String",
+         "inter_id": "String", "number_of_E_nodes": "Nat", "number_of_I_nodes": "Nat", "number_of_XY_nodes": "Nat", "branch_identities": "List String",
+         "determine_branch_identity()": ["Nat", "Nat", "Nat"]}
+    return translate_function(
+        src, "get_branch_identities", "get_branch_identities",
+        {"branches": "List B", "nodes": "Nat → N", "node_identities": "List String", "snap_threshold": "Rat"}, "List String", C, types=T,
+        extra_params=[("{B}", "Type"), ("{N}", "Type"), ("bquery", "B → List Nat"), ("edist", "N → B → Rat")],
+        slice_from="branch_identities = []", default_num="Nat")
+
+
 # ---------------------------------------------------------------- C08
 
 
@@ -791,6 +880,8 @@ ITEMS: List[Item] = [
     Item("BranchIdentity", BAN, ["C05", "C01"], b_branch_identity, extra_modules=[GENERAL]),
     Item("DegreeToClass", BAN, ["C05", "C01"], b_degree_to_class, extra_modules=[GENERAL]),
     Item("LengthFilters", BAN, ["C01", "C04"], b_length_filters),
+    Item("NodeIdentity", BAN, ["C05", "C01"], b_node_identity, extra_modules=[GENERAL]),
+    Item("BranchIdentities", BAN, ["C05", "C01"], b_branch_identities, deps=["BranchIdentity"], extra_modules=[GENERAL]),
     Item("SnapConstants", BAN, ["C01", "C03", "C06", "C16"], b_snap_constants),
     Item("BoundaryWeight", GENERAL, ["C08"], b_boundary_weight),
     Item("BranchBoundary", PARAMS, ["C08"], b_branch_boundary, extra_modules=[GENERAL, NETWORK]),
